@@ -162,7 +162,7 @@ func (e *Enc) instr(cur *cursor, ins ssa.Instruction) {
 		case *types.Slice:
 			s := e.asTerm(base)
 			e.safety(cur, "idx", fmt.Sprintf("(and (<= 0 %s) (< %s (sl_len %s)))", idx, idx, s), x.Pos(), "slice index in range")
-			fc.vals[x] = term(e.define(x.Name(), "Addr", fmt.Sprintf("(Elem (sl_base %s) (+ (sl_off %s) %s))", s, s, idx)), x.Type())
+			fc.vals[x] = term(e.define(x.Name(), "Addr", fmt.Sprintf("(selem %s %s)", s, idx)), x.Type())
 		case *types.Pointer:
 			at := u.Elem().Underlying().(*types.Array)
 			if base.K == vLocal {
@@ -724,7 +724,7 @@ func (e *Enc) bytesToStr(cur *cursor, sl string) string {
 	s := e.fresh("bstr", "Str")
 	arr := e.heapGet(cur.st, "M$uint8", "Int")
 	e.assume(cur.guard, fmt.Sprintf("(= (slen %s) (sl_len %s))", s, sl))
-	e.assume(cur.guard, fmt.Sprintf("(forall ((k Int)) (! (=> (and (<= 0 k) (< k (sl_len %s))) (= (sat %s k) (select %s (Elem (sl_base %s) (+ (sl_off %s) k))))) :pattern ((sat %s k))))", sl, s, arr, sl, sl, s))
+	e.assume(cur.guard, fmt.Sprintf("(forall ((k Int)) (! (=> (and (<= 0 k) (< k (sl_len %s))) (= (sat %s k) (select %s (selem %s k)))) :pattern ((sat %s k))))", sl, s, arr, sl, s))
 	return s
 }
 
